@@ -18,9 +18,9 @@ RULE = ("(merge) datasets of 2..40 generated floats (families: plain, constant, 
         "states of every draw. Oracle: count = chains*draws >= requested; k sequence = [burn_in, steps, ...]; each draw continues "
         "the previous chains; mean/variance/std_error = one-pass numpy statistics of the per-draw apply values concatenated. "
         "Non-trivial = >= 2 draws and num_chains not dividing num_samples, or num_chains = 1.")
-RULE_EXT = ('Extended as built: float32 user chains, 257-300 chains, composite observables over a shared view, value continuity between draws, default burn_in, Observable.sample under an identical torch seed, System.statistics_from_samples vs each observable alone.')
+RULE_EXT = ('Extended as built: float32 user chains, 257-300 chains, composite observables over a shared view, value continuity between draws, default burn_in, Observable.sample under an identical torch seed, System.statistics_from_samples vs each observable alone. Round 6: statistics results returned earlier by the same System / observable object unchanged after later calls; merge data exactly 0 or >= 1e-100.')
 RULE = RULE + " " + RULE_EXT
-ASSUMPTIONS = ["total drawn count >= 2 (the unbiased variance of a single value is undefined)", "rtol 1e-9 + atol 1e-12*scale^2 on variances"]
+ASSUMPTIONS = ["(merge) data values are exactly 0 or >= 1e-100 in magnitude (no variances in the denormal range)", "total drawn count >= 2 (the unbiased variance of a single value is undefined)", "rtol 1e-9 + atol 1e-12*scale^2 on variances"]
 
 
 # ------------------------------------------------------------------ part 1: the merge routine
@@ -38,6 +38,7 @@ def datasets(draw, tier):
             xs = [x + off for x in xs]
         elif fam == "mixed":
             xs = [x * (10.0 ** ((i % 5) - 2)) for i, x in enumerate(xs)]
+    xs = [0.0 if abs(x) < 1e-100 else x for x in xs]       # squares of smaller numbers underflow in any float64 implementation (variance in the denormal range)
     cuts = sorted(set(draw(st.lists(st.integers(2, max(2, n - 2)), max_size=5))))
     return {"xs": xs, "cuts": cuts, "family": fam}
 
@@ -45,6 +46,8 @@ def datasets(draw, tier):
 def check_merge(c):
     from qucumber.observables.utils import _update_statistics
     xs = np.array(c["xs"], dtype=np.float64)
+    if bool(((np.abs(xs) > 0) & (np.abs(xs) < 1e-100)).any()):
+        return {"excluded": 1, "nontrivial": False, "labels": ["excluded:denormal-range-data"]}     # outside the stated domain (see ASSUMPTIONS)
     n = len(xs)
     mean, var = float(np.mean(xs)), float(np.var(xs, ddof=1))
     scale = float(np.abs(xs).max()) + 1e-300
@@ -257,6 +260,24 @@ def check_stats(c):
         alone = o.statistics_from_samples(state, probe.clone())
         require(set(sys_fs[o.name].keys()) == set(alone.keys()) and all((sys_fs[o.name][k_] == alone[k_]) or (sys_fs[o.name][k_] != sys_fs[o.name][k_] and alone[k_] != alone[k_]) for k_ in alone),
                 "system.statistics_from_samples", f"System.statistics_from_samples gives {o.name} a result different from the observable alone")
+    # results belong to the caller: what an earlier statistics call returned must not change when the same System / observable object
+    # is asked again (other seed, other sample count)
+    import copy as _copy
+    sy = System(*obs)
+    torch.manual_seed(11)
+    r1 = sy.statistics(state, num_samples=6, num_chains=3, burn_in=1, steps=1)
+    k1 = _copy.deepcopy(r1)
+    torch.manual_seed(12)
+    r2 = sy.statistics(state, num_samples=9, num_chains=3, burn_in=0, steps=1)
+    k2 = _copy.deepcopy(r2)
+    o1 = obs[0].statistics(state, num_samples=4, num_chains=2, burn_in=0, steps=1)
+    ko1 = dict(o1)
+    obs[0].statistics(state, num_samples=8, num_chains=2, burn_in=0, steps=1)
+    sy.statistics_from_samples(state, probe.clone())
+    eqd = lambda a, b: a.keys() == b.keys() and all((a[k_] == b[k_]) or (a[k_] != a[k_] and b[k_] != b[k_]) for k_ in a)
+    require(r1.keys() == k1.keys() and all(eqd(r1[nm], k1[nm]) for nm in k1) and all(eqd(r2[nm], k2[nm]) for nm in k2) and eqd(o1, ko1), "ownership:earlier-result-changed",
+            "a statistics result returned earlier changed when the same System / observable object was asked again")
+    require(all(r1[nm]["num_samples"] == 6 and r2[nm]["num_samples"] == 9 for nm in k1), "ownership:earlier-result-changed", "held statistics results report the wrong sample counts")
     nt = (draws >= 2 and ns % chains != 0) or chains == 1
     return {"nontrivial": nt, "labels": [f"type={c['type']}", "mode=" + c["mode"], "system" if c["system"] else "single"] + (["chains=1"] if chains == 1 else []) + [f"draws>=2"] * (draws >= 2)}
 
